@@ -11,6 +11,8 @@ CONSTANTS
   AllowEnd = FALSE
   MaxRequery = 0
   FixCommitState = TRUE
+  SeqSMP = FALSE
+  FixSMPReset = FALSE
 INVARIANTS TypeOK QuietMeansEncrypted SlotsSuffice SlotBound NoSplice
 PROPERTIES BothEncrypted
 CHECK_DEADLOCK FALSE
